@@ -52,11 +52,12 @@ const (
 	opSnapshotStale
 	opRestart
 	opCrash
+	opTruncateBeyond
 	nOps
 )
 
 var opNames = []string{"NewTerm(same)", "NewTerm(+1)", "NewTerm(stale)", "Append(next,term)", "Append(next,stale term)", "Append(re-sent,stale term)",
-	"Truncate(last-1)", "Truncate(re-delivered)", "Snapshot(complete)", "Snapshot(interrupted)", "Snapshot(stale term)", "Restart", "Crash"}
+	"Truncate(last-1)", "Truncate(re-delivered)", "Snapshot(complete)", "Snapshot(interrupted)", "Snapshot(stale term)", "Restart", "Crash", "Truncate(beyond the end)"}
 
 type mentry struct {
 	term int64
@@ -424,6 +425,24 @@ func (n *node) step(op int) bool {
 		}
 		if op == opTruncate {
 			n.lastTrunc = req
+		}
+	case opTruncateBeyond:
+		// the leader of the current term names, as the point to truncate to, an entry beyond the end of this
+		// node's log (its own log is longer and the node's tail is from a term it has never seen): the node does
+		// not hold that entry and cannot claim to; answering OK would tell the leader that the node's log agrees
+		// with its own up to the node's head
+		if n.ackTerm < 0 || n.last < 0 || n.last < n.first || n.brokenSnapshot {
+			return false
+		}
+		st, err := n.fc.GetStatus(&proto.GetStatusRequest{Shard: shard})
+		if err != nil || st.Status != proto.ServingStatus_FENCED {
+			return false
+		}
+		req := &proto.TruncateRequest{Namespace: ns, Shard: shard, Term: n.ackTerm, HeadEntryId: &proto.EntryId{Term: n.hist[n.last].term, Offset: n.last + 2}}
+		resp, err := n.fc.Truncate(req)
+		s.Settle()
+		if err == nil {
+			n.failf("truncate-to-entry-not-held-accepted", "Truncate(term %d, head (%d,%d)) answered OK with head %v by a node whose log ends at offset %d: it does not hold that entry", req.Term, req.HeadEntryId.Term, req.HeadEntryId.Offset, resp.GetHeadEntryId(), n.last)
 		}
 	case opSnapshotOK, opSnapshotBroken, opSnapshotStale:
 		if n.ackTerm < 0 {
@@ -952,7 +971,7 @@ func Main(property string, keep map[string]bool, rule string) int {
 			Replay: map[string]any{"seq": f.seq, "events": names(f.seq)}})
 	}
 	if rule == "" {
-		rule = "every sequence of follower protocol events (13-event alphabet) up to max_depth, replayed from scratch on a real follower controller; a sequence is counted when its last event is applicable in the state reached; distinct = distinct end states (term, log end, model bounds)"
+		rule = "every sequence of follower protocol events (14-event alphabet) up to max_depth, replayed from scratch on a real follower controller; a sequence is counted when its last event is applicable in the state reached; distinct = distinct end states (term, log end, model bounds)"
 	}
 	return run.Finish(rule)
 }
